@@ -9,7 +9,10 @@ import SuxModel.Base.Out
   capacity `num_threads.ilog2()`); it leaves its loop when `send` fails (every receiver is gone)
   or the iterator is exhausted, then drops `data_send`;
 * `num_threads` *workers*, each looping: `data_recv.recv()` (`Err` = channel empty and
-  disconnected → `return`); **`if shard.is_empty() { return; }`**; sort / duplicate checks (may send
+  disconnected → `return`); **`if shard.is_empty() { continue; }`** — `return;` before the fix of
+  defect D31: the statement is the parameter `cont` of `step` (`true` = `continue`), and the
+  property theorems instantiate it with `Gen.parEmptyShardContinues`, which
+  `tools/extract_consts.py` reads off the source; sort / duplicate checks (may send
   `DuplicateSignature` / `DuplicateLocalSignature` on `err_send` and `return`);
   `if failed.load(Relaxed) { return }`; (filters: fill the chunk with pseudo-random bytes;)
   `solve_shard(self, shard_index, shard, chunk, pl)`: `Err(())` → send `UnsolvableShard`, `return`;
@@ -90,7 +93,7 @@ def init (c : Cfg) (chunks0 : Array (Array Nat)) : St :=
   { next := 0, prodDone := false, chan := [], idle := c.threads, busy := [], chunks := chunks0,
     errs := [], failed := false, done := [], sawEmpty := false }
 
-def step (c : Cfg) (numShards : Nat) (s : St) : Ev → Option St
+def step (c : Cfg) (cont : Bool) (numShards : Nat) (s : St) : Ev → Option St
   | .send =>
     if s.next < numShards ∧ s.prodDone = false ∧ s.chan.length < max c.cap 1 then
       some { s with chan := s.chan ++ [s.next], next := s.next + 1 }
@@ -105,7 +108,10 @@ def step (c : Cfg) (numShards : Nat) (s : St) : Ev → Option St
     if s.idle = 0 then none else
     match s.chan with
     | x :: rest =>
-      if c.empty x then some { s with chan := rest, idle := s.idle - 1, sawEmpty := true }
+      if c.empty x then
+        -- `if shard.is_empty() { continue; }` (`cont`) / `{ return; }` (`!cont`)
+        if cont then some { s with chan := rest }
+        else some { s with chan := rest, idle := s.idle - 1, sawEmpty := true }
       else some { s with chan := rest, idle := s.idle - 1, busy := x :: s.busy }
     | [] => if s.prodDone then some { s with idle := s.idle - 1 } else none
   | .work j b1 b2 b3 =>
@@ -131,11 +137,11 @@ def step (c : Cfg) (numShards : Nat) (s : St) : Ev → Option St
     if s.errs ≠ [] ∧ s.failed = false then some { s with failed := true } else none
 
 /-- run a schedule -/
-def run (c : Cfg) (numShards : Nat) : St → List Ev → Option St
+def run (c : Cfg) (cont : Bool) (numShards : Nat) : St → List Ev → Option St
   | s, [] => some s
   | s, e :: es =>
-    match step c numShards s e with
-    | some s' => run c numShards s' es
+    match step c cont numShards s e with
+    | some s' => run c cont numShards s' es
     | none => none
 
 /-- every thread of the scope has finished -/
@@ -156,7 +162,7 @@ def seqStep (c : Cfg) (chunks : Array (Array Nat)) (j : Nat) : Option (Array (Ar
 
 /-- the sequential left-to-right reference: shard `0`, then `1`, … each on its own chunk;
     `none` if some shard is unsolvable.  Empty shards have no equations: their chunk is left alone
-    (this is also what a worker does with them). -/
+    (this is also what a worker does with them, whether it continues or returns). -/
 def seqSolve (c : Cfg) (chunks0 : Array (Array Nat)) : Option (Array (Array Nat)) :=
   (List.range chunks0.size).foldlM (seqStep c) chunks0
 
